@@ -300,3 +300,49 @@ EQUIVALENT.append(('load_existence_status_inverted_default', ['C10'], AG,
                 'is_necessary' in node_dict else True""",
      """            ag_node.is_necessary = node_dict['is_necessary'] != 'False' if \\
                 'is_viable' in node_dict else True""", 'benign-looking rewrite; equivalent'))
+
+# ---- apriori analysis (C08) ---------------------------------------------------
+MUTANTS += [
+    ('fixrev_selfloop_viability', ['C08'], AP,
+     """            child.is_viable = any(parent.is_viable
+                for parent in child.parents)""",
+     """            child.is_viable = False
+            for parent in child.parents:
+                child.is_viable = child.is_viable or parent.is_viable""", 'revert 3773716 (viability)'),
+    ('fixrev_selfloop_necessity', ['C08'], AP,
+     """            child.is_necessary = any(_is_necessary_for_children(parent)
+                for parent in child.parents)""",
+     """            child.is_necessary = False
+            for parent in child.parents:
+                child.is_necessary = child.is_necessary or _is_necessary_for_children(parent)""",
+     'revert 3773716 (necessity)'),
+    ('fixrev_ttc_gate_siblings', ['C08'], AP,
+     """            child.is_necessary = any(_is_necessary_for_children(parent)
+                for parent in child.parents)""",
+     """            child.is_necessary = any(parent.is_necessary
+                for parent in child.parents)""", 'revert 0ff5db9'),
+    ('apriori_no_ttc_gate', ['C08'], AP,
+     """    if _has_ttc_distribution(node):
+        # Do not propagate""",
+     """    if False and _has_ttc_distribution(node):
+        # Do not propagate""", 'propagate_necessity ignores the TTC gate'),
+    ('apriori_defense_partial_is_unviable', ['C08'], AP,
+     "            node.is_viable = node.defense_status != 1.0",
+     "            node.is_viable = node.defense_status < 0.5", 'a half-enabled defense makes its children non-viable'),
+    ('apriori_notexist_necessity_flipped', ['C08'], AP,
+     "            node.is_necessary = bool(node.existence_status)",
+     "            node.is_necessary = not node.existence_status", 'notExist necessity inverted'),
+    ('apriori_no_recursion_on_and', ['C08'], AP,
+     """        if child.is_viable != original_value:
+            propagate_viability_from_node(child)""",
+     """        if child.is_viable != original_value and child.type == 'or':
+            propagate_viability_from_node(child)""", 'non-viability stops at and-steps'),
+]
+
+MUTANTS += [
+    ('fixrev_add_attacker_atomic', ['C09'], AG,
+     """        for node_id in list(reached_attack_steps) + list(entry_points):
+            if self.get_node_by_id(int(node_id)) is None:""",
+     """        for node_id in []:
+            if self.get_node_by_id(int(node_id)) is None:""", 'revert 80467fa'),
+]
